@@ -23,7 +23,7 @@ function is `concreteRun` in lean/GrogModel/Drv/Build.lean.
 import copy, hashlib, json, os, shutil, subprocess, fnmatch
 from concurrent.futures import ThreadPoolExecutor
 
-ALL_FIXES = {"gateChecks": True, "syncTaint": True, "rerunOnce": True, "minValidate": True, "alias": True}
+ALL_FIXES = {"gateChecks": True, "syncTaint": True, "rerunOnce": True, "minValidate": True, "loadFault": True, "alias": True}
 
 
 # ------------------------------------------------------------------------------------------------
@@ -589,7 +589,7 @@ def model_request(hist, fixes=ALL_FIXES, force_minimal=None):
             minimal = s.get("minimal", False) if force_minimal is None else force_minimal
             steps.append({"k": "build", "enableCache": s.get("enable_cache", True), "minimal": minimal,
                           "order": selected(ws, s["patterns"]), "watch": watch, "labels": sorted(ws["targets"])})
-    return {"op": "build.simulate", "fx": {k: fixes[k] for k in ("gateChecks", "syncTaint", "rerunOnce", "minValidate")},
+    return {"op": "build.simulate", "fx": {k: fixes[k] for k in ("gateChecks", "syncTaint", "rerunOnce", "minValidate", "loadFault")},
             "files": files, "steps": steps}
 
 
